@@ -1,2 +1,120 @@
-(* Proofs/FastqProofsB.v *)
+(* Proofs/FastqProofsB.v — the reader on written records: round trip, and
+   "preceding records are delivered intact" for any continuation. *)
 From Bio Require Import Base.
+From Bio.Model Require Import Fastq.
+From Bio.Spec Require Import FastqSpec.
+From Bio.Proofs Require Import FastqProofs.
+
+Lemma decode_toks_eq : forall t toks,
+  decode_toks t toks
+  = read_with toks t (fun r rest => Rec r :: decode_toks t rest) [] [ErrItem].
+Proof. intros t toks. destruct toks; reflexivity. Qed.
+
+Lemma decode_toks_nil : forall t,
+  decode_toks t [] = match t with TEOF => [] | TErr => [ErrItem] end.
+Proof. intros t. reflexivity. Qed.
+
+(* four well-formed tokens are one record, whatever the terminal condition *)
+Lemma decode_toks_record : forall t nm sq x ql rest,
+  length ql = length sq ->
+  decode_toks t ((AT :: nm) :: sq :: (PLUS :: x) :: ql :: rest)
+  = Rec {| name := nm; seq := sq; quals := ql |} :: decode_toks t rest.
+Proof.
+  intros t nm sq x ql rest H. rewrite decode_toks_eq. unfold read_with.
+  unfold has_plus_prefix. rewrite !N.eqb_refl. cbn [negb].
+  match goal with |- context [Nat.eqb ?a ?b] =>
+    replace (Nat.eqb a b) with true by (symmetry; apply Nat.eqb_eq; exact H) end.
+  cbn [negb]. reflexivity.
+Qed.
+
+Lemma fastq_eta : forall r, {| name := name r; seq := seq r; quals := quals r |} = r.
+Proof. intros []. reflexivity. Qed.
+
+(* one written record in front of anything *)
+Lemma decode_write_app : forall t r rest, fq_ok r ->
+  decode (write r ++ rest) t = Rec r :: decode rest t.
+Proof.
+  intros t r rest H. unfold decode. rewrite scan_tokens_write by exact H.
+  rewrite decode_toks_record. rewrite fastq_eta. reflexivity.
+  destruct H as (_ & _ & _ & E). symmetry. exact E.
+Qed.
+
+(* Preceding valid records are delivered intact, whatever follows them and
+   however the stream ends. *)
+Lemma decode_prefix : forall t pre c, Forall fq_ok pre ->
+  decode (concat (map write pre) ++ c) t = map Rec pre ++ decode c t.
+Proof.
+  intros t pre c H. induction H as [|r pre Hr Hpre IH].
+  - reflexivity.
+  - cbn [map concat]. rewrite <- app_assoc. rewrite decode_write_app by exact Hr.
+    rewrite IH. reflexivity.
+Qed.
+
+Lemma decode_nil : forall t, decode [] t = match t with TEOF => [] | TErr => [ErrItem] end.
+Proof. intros t. reflexivity. Qed.
+
+(* C02, first half: any list of records in the domain, written and read back,
+   yields exactly the same records in order; no hypothesis on lengths. *)
+Lemma roundtrip : forall rs, Forall fq_ok rs ->
+  decode (concat (map write rs)) TEOF = map Rec rs.
+Proof.
+  intros rs H. rewrite <- (app_nil_r (concat (map write rs))).
+  rewrite decode_prefix by exact H. rewrite decode_nil. apply app_nil_r.
+Qed.
+
+(* the same through MarshalText *)
+Lemma roundtrip_marshal : forall rs bs, Forall fq_ok rs ->
+  Forall2 (fun r b => marshal_text r = Ok b) rs bs ->
+  decode (concat bs) TEOF = map Rec rs.
+Proof.
+  intros rs bs H F. assert (E : bs = map write rs).
+  { clear H. induction F as [|r b rs bs Hrb F IH]. reflexivity.
+    cbn [map]. rewrite marshal_total in Hrb. injection Hrb as <-. rewrite IH. reflexivity. }
+  subst bs. apply roundtrip. exact H.
+Qed.
+
+(* a stream that fails after complete records: the records, then the error *)
+Lemma roundtrip_then_error : forall rs, Forall fq_ok rs ->
+  decode (concat (map write rs)) TErr = map Rec rs ++ [ErrItem].
+Proof.
+  intros rs H. rewrite <- (app_nil_r (concat (map write rs))).
+  rewrite decode_prefix by exact H. rewrite decode_nil. reflexivity.
+Qed.
+
+(* For every input and terminal condition: the items are records (each with
+   qualities as long as its sequence) followed by at most one error item, which
+   is the last; a stream that ends with an error always ends with an error item. *)
+Lemma decode_toks_shape_n : forall t n toks, (length toks <= n)%nat ->
+  exists rs, Forall (fun r => length (quals r) = length (seq r)) rs
+    /\ (decode_toks t toks = map Rec rs ++ [ErrItem]
+        \/ (t = TEOF /\ decode_toks t toks = map Rec rs)).
+Proof.
+  intros t n. induction n as [|n IH]; intros toks Hn.
+  - destruct toks; [|cbn [length] in Hn; lia]. exists []. split. constructor.
+    destruct t. right. split; reflexivity. left. reflexivity.
+  - assert (Eerr : exists rs : list fastq, Forall (fun r => length (quals r) = length (seq r)) rs
+        /\ ([ErrItem] = map Rec rs ++ [@ErrItem fastq] \/ (t = TEOF /\ [ErrItem] = map Rec rs))).
+    { exists []. split. constructor. left. reflexivity. }
+    rewrite decode_toks_eq. unfold read_with.
+    destruct toks as [|t1 toks1].
+    { exists []. split. constructor. destruct t. right. split; reflexivity. left. reflexivity. }
+    destruct t1 as [|c nm]. exact Eerr.
+    destruct (negb (c =? AT)). exact Eerr.
+    destruct toks1 as [|t2 toks2]. destruct t; exact Eerr.
+    destruct toks2 as [|t3 toks3]. destruct t; exact Eerr.
+    destruct (negb (has_plus_prefix t3)). exact Eerr.
+    destruct toks3 as [|t4 toks4]. destruct t; exact Eerr.
+    destruct (Nat.eqb_spec (length t4) (length t2)) as [E|E]; cbn [negb]. 2: exact Eerr.
+    destruct (IH toks4) as (rs & Hrs & Hd). { cbn [length] in Hn. lia. }
+    exists ({| name := nm; seq := t2; quals := t4 |} :: rs). split.
+    + constructor. exact E. exact Hrs.
+    + destruct Hd as [Hd|[Ht Hd]]; rewrite Hd.
+      * left. reflexivity.
+      * right. split. exact Ht. reflexivity.
+Qed.
+
+Lemma decode_shape : forall s t,
+  exists rs, Forall (fun r => length (quals r) = length (seq r)) rs
+    /\ (decode s t = map Rec rs ++ [ErrItem]
+        \/ (t = TEOF /\ decode s t = map Rec rs)).
+Proof. intros s t. unfold decode. apply (decode_toks_shape_n t (length (scan_tokens s))). lia. Qed.
